@@ -663,3 +663,18 @@ Theorem C16_list_arms_probe :
   /\ lp_calls (TRef "object" lp_root) = [] /\ lp_calls (TRef "oneof" lp_root) = [].
 Proof. exact list_arms_probe. Qed.
 Print Assumptions C16_list_arms_probe.
+
+(* the declarative reading determines the whole request; for a declaration without duplicate properties the
+   client method of the model is THE client method that meets the declaration *)
+Theorem C16_client_meets_unique_request : forall svc d cm cm', NoDup (df_req d) ->
+  client_meets svc d cm -> client_meets svc d cm' -> cm_req cm = cm_req cm'.
+Proof. exact client_meets_unique_request. Qed.
+Print Assumptions C16_client_meets_unique_request.
+
+Theorem C16_declared_client_is_the_one : forall (to_snake : str -> str) g svc d cm,
+  wf_decl to_snake (df_decl d) -> NoDup (df_req d) -> client_meets svc d cm ->
+  cm_service cm = cm_service (declared_client g svc d) /\ cm_name cm = cm_name (declared_client g svc d)
+  /\ cm_verb cm = cm_verb (declared_client g svc d) /\ cm_path cm = cm_path (declared_client g svc d)
+  /\ cm_req cm = cm_req (declared_client g svc d) /\ cm_resp cm = cm_resp (declared_client g svc d).
+Proof. exact declared_client_is_the_one. Qed.
+Print Assumptions C16_declared_client_is_the_one.
